@@ -116,25 +116,21 @@ def trunc(x):
     return mk(z3.fpRoundToIntegral(z3.RTZ(), x.v))
 
 
-def fp_index(x, lo=-40, hi=40):
-    """Concretise an integral FP value: fork over the small integers it can equal."""
+def fp_index(x, cap=60):
+    """Concretise an integral FP value: fork over the integers it can equal (enumerated with the solver)."""
     ex = core.cur()
     t = z3.simplify(x.v)
-    for k in _candidates(ex, t, lo, hi):
-        if ex.branch(z3.fpEQ(t, z3.FPVal(float(k), FMT))):
-            return k
-    raise core.PathAbort()
+    f = to_float(t)
+    if f is not None:
+        return int(f)
 
+    def to_py(val):
+        v = to_float(val)
+        if v is None or v != v or not float(v).is_integer():
+            return None
+        return int(v)
 
-def _candidates(ex, t, lo, hi):
-    # try the model's value first, then the remaining small integers in order
-    seen = []
-    m = ex.model
-    if m is not None:
-        v = to_float(m.eval(t, model_completion=True))
-        if v is not None and v == v and abs(v) <= max(abs(lo), abs(hi)) and float(v).is_integer():
-            seen.append(int(v))
-    return seen + [k for k in range(lo, hi + 1) if k not in seen]
+    return ex.choose_value(t, to_py, lambda term, k: z3.fpEQ(term, z3.FPVal(float(k), FMT)), cap)
 
 
 def to_float(val):
